@@ -1,6 +1,6 @@
 (** GanttProofs.v — lemmas behind C20 (charts, axes, frame names, frame
     order, replay of a history into frames). *)
-From JSL Require Import Base Instance Dstate Filters World Feasible ListFacts DispatchFun Inv
+From JSL Require Import Base Instance Dstate Filters World Feasible ListFacts DispatchFun Inv Run
      Gantt GanttSpec.
 From Coq Require Import Lia Permutation Sorting.Sorted.
 From Coq Require DecimalNat.
@@ -703,7 +703,7 @@ Lemma replays_final I h : forall d, valid I -> Inv I d -> replays I d h ->
   Permutation (all_sops (fold_left place h (sched d))) (rev h ++ all_sops (sched d)).
 Proof.
   induction h as [|x t IH]; intros d Hv Hi Hr.
-  - cbn. repeat split; [exact Hi|apply Permutation_refl].
+  - cbn. split; [exact Hi|]. split; [reflexivity|apply Permutation_refl].
   - inversion Hr as [|? r ? o row ? Ha Ht]; subst.
     pose proof (a_row _ _ _ _ _ _ Ha) as Hrow.
     assert (E : step_d I d x = apply_sop I d x row).
@@ -720,17 +720,166 @@ Qed.
 Lemma fold_max_perm l1 l2 : Permutation l1 l2 -> fold_right Z.max 0 l1 = fold_right Z.max 0 l2.
 Proof. induction 1; simpl; lia. Qed.
 
-Lemma fold_left_max t : forall e, fold_left Z.max t e = Z.max e (fold_right Z.max e t).
-Proof. induction t as [|a t IH]; intros e; simpl; [lia|]. rewrite IH. rewrite (IH a) at 1.
-  (* both sides are the maximum of e, a and the elements of t *)
-  assert (H : forall b c, b <= c -> fold_right Z.max b t <= fold_right Z.max c t).
-  { intros b c Hbc. induction t as [|z t' IHt]; simpl; [exact Hbc|]. clear IH.
-    assert (fold_right Z.max b t' <= fold_right Z.max c t') by (apply IHt; intros; lia). lia. }
-  assert (Hge : forall b, b <= fold_right Z.max b t).
-  { intros b. clear IH H. induction t as [|z t' IHt]; simpl; lia. }
-  pose proof (Hge e). pose proof (Hge (Z.max e a)). pose proof (Hge a).
-  pose proof (H e (Z.max e a) ltac:(lia)). pose proof (H a (Z.max e a) ltac:(lia)).
-  assert (Hup : fold_right Z.max (Z.max e a) t <= Z.max (fold_right Z.max e t) (fold_right Z.max a t)).
-  { clear -t. induction t as [|z t' IHt]; simpl; lia. }
-  lia.
+Lemma fold_right_max_base t : forall e a,
+  fold_right Z.max (Z.max e a) t = Z.max a (fold_right Z.max e t).
+Proof. induction t as [|z t IH]; intros e a; simpl; [lia|]. rewrite IH. lia. Qed.
+
+Lemma fold_left_max t : forall e, fold_left Z.max t e = fold_right Z.max e t.
+Proof.
+  induction t as [|a t IH]; intros e; [reflexivity|].
+  cbn [fold_left fold_right]. rewrite IH. apply fold_right_max_base.
+Qed.
+
+Lemma fold_right_max_from t e : 0 <= e -> fold_right Z.max e t = Z.max e (fold_right Z.max 0 t).
+Proof. intros He. induction t as [|z t IH]; simpl; [lia|]. rewrite IH. lia. Qed.
+
+Theorem history_makespan_spec I h : valid I -> replays I (init_d I) h -> h <> [] ->
+  history_makespan I h = Some (makespan I (sched_of_history I h)).
+Proof.
+  intros Hv Hr Hne.
+  destruct (replays_final I h (init_d I) Hv (Inv_init I) Hr) as (Hinv & Hsched & Hperm).
+  cbn [init_d sched] in Hsched, Hperm. fold (sched_of_history I h) in Hsched, Hperm.
+  assert (Hperm' : Permutation (all_sops (sched_of_history I h)) h).
+  { eapply perm_trans; [exact Hperm|].
+    unfold all_sops. rewrite concat_repeat_nil, app_nil_r. apply Permutation_sym, Permutation_rev. }
+  unfold makespan. rewrite (fold_max_perm _ _ (Permutation_map (s_end I) Hperm')).
+  unfold history_makespan. destruct h as [|x t]; [congruence|]. cbn [map]. f_equal.
+  rewrite fold_left_max. cbn [fold_right].
+  apply fold_right_max_from.
+  (* the first entry ends at a non-negative time *)
+  assert (Hin : In x (all_sops (sched (fold_left (step_d I) (x :: t) (init_d I))))).
+  { rewrite Hsched. eapply Permutation_in; [apply Permutation_sym; exact Hperm'|left; reflexivity]. }
+  destruct (i_sop _ _ Hinv x Hin) as (_ & _ & Hst & _).
+  pose proof (dur_nonneg I x Hv). unfold s_end. lia.
+Qed.
+
+(** ** What is written, and what is read back *)
+
+Theorem frames_written I h : replays I (init_d I) h -> h <> [] ->
+  exists xl d,
+    history_makespan I h = Some xl /\
+    create_gantt_chart_frames I h = (d, None) /\
+    dir_names d = rev (map frame_name (seq 1 (length h))) /\
+    forall k, (1 <= k <= length h)%nat ->
+              dir_lookup d (frame_name k) = Some (mkframe (sched_of_history I (firstn k h)) xl).
+Proof.
+  intros Hr Hne. unfold create_gantt_chart_frames.
+  destruct (history_makespan I h) as [xl|] eqn:E.
+  2:{ unfold history_makespan in E. destruct h; [congruence|discriminate]. }
+  exists xl. eexists. split; [reflexivity|].
+  rewrite frames_loop_replays by exact Hr. split; [reflexivity|]. cbn [init_w core init_d sched]. split.
+  - rewrite frames_dir_names; [apply app_nil_r|]. intros nm [].
+  - intros k Hk. rewrite frames_dir_lookup.
+    destruct (Nat.leb_spec 1 k); [|lia]. destruct (Nat.ltb_spec k (1 + length h)); [|lia].
+    cbn [andb]. replace (Datatypes.S (k - 1)) with k by lia. reflexivity.
+Qed.
+
+(** The GIF / video: whatever order [os.listdir] answers in, picture number
+    [k] handed to imageio is the plot of the first [k] history entries. *)
+Theorem animation_frames I h listing : replays I (init_d I) h -> h <> [] ->
+  Permutation listing (dir_names (fst (create_gantt_chart_frames I h))) ->
+  exists xl,
+    history_makespan I h = Some xl /\
+    snd (create_gantt_chart_frames I h) = None /\
+    load_images (fst (create_gantt_chart_frames I h)) listing =
+    Some (map (fun k => Some (mkframe (sched_of_history I (firstn k h)) xl)) (seq 1 (length h))).
+Proof.
+  intros Hr Hne Hp. destruct (frames_written I h Hr Hne) as (xl & d & Hmk & Hd & Hnames & Hlook).
+  exists xl. rewrite Hd in *. cbn [fst snd] in *. split; [exact Hmk|]. split; [reflexivity|].
+  unfold load_images. rewrite (load_order_frames (length h) listing).
+  - f_equal. rewrite map_map. apply map_ext_in. intros k Hk. apply in_seq in Hk. apply Hlook. lia.
+  - eapply perm_trans; [exact Hp|]. rewrite Hnames. apply Permutation_sym, Permutation_rev.
+Qed.
+
+(** * 9. Summaries used by the property file *)
+
+Lemma bar_of_geometry I x :
+  b_x (bar_of I x) = s_start x /\
+  b_x (bar_of I x) + b_w (bar_of I x) = s_end I x /\
+  b_y (bar_of I x) = 1 + 10 * Z.of_nat (s_mach x) /\
+  b_h (bar_of I x) = 9 /\
+  b_col (bar_of I x) = Z.of_nat (s_job x).
+Proof. unfold bar_of. cbn. repeat split; lia. Qed.
+
+Theorem bars_bijection I S : drawable I S -> chart_bars I S (bars I S).
+Proof. intros H. unfold chart_bars. rewrite (bars_spec I S H). apply Permutation_refl. Qed.
+
+Theorem chart_correct I S req nt :
+  valid I -> drawable I S -> 1 <= nt ->
+  match req with Some r => 0 <= r | None => True end ->
+  chart_shows I S req (plot_gantt_chart I S req nt).
+Proof.
+  intros Hv Hd Hn Hr. pose proof Hd as (Hm & Hs & Hj).
+  unfold chart_shows, plot_gantt_chart. cbn [c_bars c_legend c_ylim c_yticks c_xlim c_xticks].
+  split; [apply bars_bijection; exact Hd|].
+  split; [apply legend_spec; exact Hj|].
+  split; [apply yaxis_spec|].
+  split; [apply xlim_spec; assumption|].
+  assert (Hx : 0 <= xlim_of I S req).
+  { unfold xlim_of. destruct req as [r|]; [exact Hr|].
+    rewrite makespan_code_spec by assumption. apply fold_max_nonneg. }
+  destruct (xticks_defined _ _ Hx Hn) as (ticks & Ht). exists ticks. split; [exact Ht|].
+  eapply xaxis_spec; eassumption.
+Qed.
+
+(** Every feasible schedule — in particular every schedule a dispatcher
+    builds (C01) — is drawable. *)
+Lemma feasible_drawable I S : feasible I S -> drawable I S.
+Proof.
+  intros [F1 F2 _ _ _ F6 _]. split; [exact F2|]. split; [exact F6|].
+  intros x Hx. destruct (F1 x Hx) as (o & Ho & _).
+  destruct (get_op_bounds _ _ _ _ Ho) as [Hj _]. exact Hj.
+Qed.
+
+Theorem frames_of_recorded I fs rs listing :
+  valid I -> recorded I fs rs <> [] ->
+  Permutation listing (dir_names (fst (create_gantt_chart_frames I (recorded I fs rs)))) ->
+  snd (create_gantt_chart_frames I (recorded I fs rs)) = None /\
+  load_images (fst (create_gantt_chart_frames I (recorded I fs rs))) listing =
+  Some (map Some (frames_expected I (recorded I fs rs))).
+Proof.
+  intros Hv Hne Hp. set (h := recorded I fs rs) in *.
+  pose proof (recorded_replays I fs rs) as Hr. fold h in Hr.
+  destruct (animation_frames I h listing Hr Hne Hp) as (xl & Hmk & Hnone & Hload).
+  split; [exact Hnone|]. rewrite Hload. f_equal. unfold frames_expected. rewrite map_map.
+  rewrite (history_makespan_spec I h Hv Hr Hne) in Hmk. inversion Hmk; subst xl. reflexivity.
+Qed.
+
+Theorem frame_files_of_recorded I fs rs :
+  recorded I fs rs <> [] ->
+  Permutation (dir_names (fst (create_gantt_chart_frames I (recorded I fs rs))))
+              (map frame_name (seq 1 (length (recorded I fs rs)))) /\
+  forall k, (1 <= k <= length (recorded I fs rs))%nat ->
+    option_map f_sched (dir_lookup (fst (create_gantt_chart_frames I (recorded I fs rs))) (frame_name k))
+    = Some (sched_of_history I (firstn k (recorded I fs rs))).
+Proof.
+  intros Hne. set (h := recorded I fs rs) in *.
+  pose proof (recorded_replays I fs rs) as Hr. fold h in Hr.
+  destruct (frames_written I h Hr Hne) as (xl & d & _ & Hd & Hnames & Hlook).
+  rewrite Hd. cbn [fst]. split.
+  - rewrite Hnames. apply Permutation_sym, Permutation_rev.
+  - intros k Hk. rewrite (Hlook k Hk). reflexivity.
+Qed.
+
+(** The unrepaired read order at 100 frames: the 11th picture is frame 100. *)
+Theorem string_order_scrambles_100 :
+  exists listing,
+    Permutation listing (map frame_name (seq 1 100)) /\
+    nth 10 (load_order_str listing) [] = frame_name 100 /\
+    load_order_str listing <> map frame_name (seq 1 100).
+Proof.
+  exists (map frame_name (seq 1 100)). split; [apply Permutation_refl|].
+  split; [vm_compute; reflexivity|].
+  intro H. apply (f_equal (fun l => nth 10 l [])) in H. vm_compute in H. discriminate.
+Qed.
+
+(** The chart of whatever a dispatcher has built so far (complete or not). *)
+Theorem chart_of_run (O : Type) (ou : instance -> list fname -> dstate -> sop -> O -> O)
+        I fs rs req nt :
+  valid I -> 1 <= nt -> match req with Some r => 0 <= r | None => True end ->
+  chart_shows I (sched (core (run_reqs O ou I fs rs))) req
+              (plot_gantt_chart I (sched (core (run_reqs O ou I fs rs))) req nt).
+Proof.
+  intros Hv Hn Hr. apply chart_correct; try assumption.
+  apply feasible_drawable. apply (dispatch_histories_feasible O ou I fs rs Hv).
 Qed.
